@@ -125,18 +125,26 @@ def int_operand(n, kinds):
     raise TranslateError("guard operand of kind %s" % s.get("kind"))
 
 
-def guard_expr(n, kinds):
+def guard_expr(n, kinds, neg=False):
+    """boolean expression over the (integer) coordinate variables; with neg its negation, pushed to the comparisons
+    (`!(a && b)` = `!a || !b`, `!(x < n)` = `n <= x`: the operands are integers)"""
     s = soft(n)
+    if s.get("kind") == "UnaryOperator" and s.get("opcode") == "!":
+        return guard_expr(kids(s)[0], kinds, not neg)
     if s.get("kind") != "BinaryOperator":
         raise TranslateError("guard is not built from binary operators")
     op = s["opcode"]
     a, b = kids(s)
-    if op == "&&":
-        return "(%s && %s)" % (guard_expr(a, kinds), guard_expr(b, kinds))
+    if op in ("&&", "||"):
+        if neg:
+            op = "||" if op == "&&" else "&&"
+        return "(%s %s %s)" % (guard_expr(a, kinds, neg), op, guard_expr(b, kinds, neg))
     if op in ("<", "<=", ">", ">="):
         l, r = int_operand(a, kinds), int_operand(b, kinds)
         if op in (">", ">="):
             l, r, op = r, l, {">": "<", ">=": "<="}[op]
+        if neg:                      # not (l < r) = r <= l ; not (l <= r) = r < l
+            l, r, op = r, l, {"<": "<=", "<=": "<"}[op]
         return "(%s %s? %s)" % (l, op, r)
     raise TranslateError("guard operator %s" % op)
 
@@ -172,7 +180,7 @@ def main():
     lb = kids(loops[0])[-1]
     if lb.get("kind") != "CompoundStmt":
         raise TranslateError("loop body is not a block")
-    decls, ifs = {}, []
+    decls, ifs, tail = {}, [], []
     for st in kids(lb):
         k = st.get("kind")
         if k == "DeclStmt":
@@ -181,7 +189,11 @@ def main():
                     raise TranslateError("unexpected declaration in the loop body")
                 decls[vd["name"]] = coord_decl(vd, vd["name"])
         elif k == "IfStmt":
+            if tail:
+                raise TranslateError("an if statement after the deposit")
             ifs.append(st)
+        elif ifs:
+            tail.append(st)          # only meaningful after `if (..) continue;`
         else:
             raise TranslateError("unexpected statement of kind %s in the loop body" % k)
     if set(decls) != {"x", "y"} or len(ifs) != 1:
@@ -192,11 +204,20 @@ def main():
     if len(ik) != 2:
         raise TranslateError("the deposit's if has an else branch or an init statement")
     kinds = {v: decls[v][0] for v in decls}
-    g = guard_expr(ik[0], kinds)
     then = ik[1]
     sts = kids(then) if then.get("kind") == "CompoundStmt" else [then]
     if len(sts) != 1:
         raise TranslateError("the guarded block has %d statements" % len(sts))
+    if sts[0].get("kind") == "ContinueStmt":
+        # `if (outside) continue; deposit;` - the deposit is guarded by the negated test
+        if len(tail) != 1:
+            raise TranslateError("after `if (..) continue;` expected exactly the deposit, found %d statements" % len(tail))
+        g = guard_expr(ik[0], kinds, True)
+        sts = tail
+    else:
+        if tail:
+            raise TranslateError("statements after the guarded deposit")
+        g = guard_expr(ik[0], kinds)
     ca = soft(sts[0])
     if ca.get("kind") != "CompoundAssignOperator" or ca.get("opcode") != "+=":
         raise TranslateError("the guarded statement is not a += deposit")
